@@ -51,6 +51,9 @@ type TypeDecl struct {
 
 type Spec struct {
 	Prologue    string      `json:"prologue,omitempty"`
+	// MorePrologue: further %{ ... %} blocks, written after the declarations;
+	// a text without line break is written on one line (`%{ text %}`)
+	MorePrologue []string `json:"more_prologue,omitempty"`
 	Union       string      `json:"union,omitempty"`
 	HasUnion    bool        `json:"has_union,omitempty"`
 	Tokens      []TokDecl   `json:"tokens"`
@@ -187,6 +190,13 @@ func (s *Spec) Render() string {
 	}
 	if s.Start != "" {
 		b.WriteString("%start " + s.Start + "\n")
+	}
+	for _, p := range s.MorePrologue {
+		if strings.Contains(p, "\n") {
+			b.WriteString("%{\n" + p + "\n%}\n")
+		} else {
+			b.WriteString("%{ " + p + " %}\n")
+		}
 	}
 	b.WriteString("%%\n")
 	for i, r := range s.Rules {
